@@ -114,7 +114,7 @@ P["C14"] = ("proof", "Specifier part: 13 laws + complement as `==` of the return
             "over markers evaluates as the Boolean combination of its leaves, so both sides of ANY Boolean identity (all the lattice laws the property names) yield markers with the same meaning in every environment (equivalence, as the property asks; "
             "not structural equality). Ties: S-gen (specifiers), S-mark (markers); direct oracles on both parts.",
             TB_PROOF + "; " + TB_MARKER, "machine-checked proof in Coq (specifiers over the regenerated model; markers over a hand model) + correspondence", "5")
-P["C11"] = ("proof", "C11_view: for EVERY comparison / ~= / wildcard atom on a version variable (any operand shape: release length, epoch, pre/post/dev suffix) `value in marker.specifier` equals the atom's evaluation on every final interpreter version; "
+P["C11"] = ("proof", "C11_in_view / C11_in_view_pv: the specifier view of `in` / `not in` lists admits exactly the final versions that satisfy one of / all of the member clauses; for python_version with X.Y members exactly the interpreters X.Y[.Z] whose X.Y is (is not) a member (evaluation of such atoms is string containment: finding pv-in-substring, oracle); C11_view: for EVERY comparison / ~= / wildcard atom on a version variable (any operand shape: release length, epoch, pre/post/dev suffix) `value in marker.specifier` equals the atom's evaluation on every final interpreter version; "
             "C11_back: from_specifier(name, s) returns AnyMarker / EmptyMarker only for the universal / empty set and otherwise None or an atom that evaluates true exactly on the final versions s admits, for every canonical s with genuine remembered clauses; "
             "C11_padding: zero padding the release segment (python_full_version) changes no comparison; C11_reversed: literal-on-the-left atoms with a final literal evaluate like the mirrored atom; C11_merge: _merge_single_markers on two atoms of one version-like variable returns something that evaluates as their conjunction / disjunction "
             "(side condition: the merged specifier is tilde_safe, i.e. outside the recorded finding tilde-max-post; the same side condition is on C11_back); C11_link / C11_linked_ops / C11_link_pv / C11_linked_normaliser: for ANY tokeniser/printer pair that round-trips, the merging oracle built from this model satisfies the hypothesis vmerge_sound of the marker theorems (C02 ...), "
